@@ -40,7 +40,7 @@ def run(ctx):
     obs.extra['meta'] = META
     from ..model import set_declaration_order_varies
     set_declaration_order_varies(True)     # some datasets declare the x dimension before y
-    total = ctx.n(480, 10000)
+    total = ctx.n(480, 50000)
     for case, rng in ctx.cases(total):
         conv = CONVENTIONS[case % len(CONVENTIONS)]
         spec = {'case': case, 'convention': conv}
